@@ -206,7 +206,7 @@ def model_runs(tier, replay=False):
     if tier == "thorough" and replay:
         runs.append(("contained-2blocks-tamper2", "PipelineReplay2.cfg", [], True))
     if not replay:
-        runs += [("as-is", "PipelineAsIs.cfg", [], False), ("loop-only", "PipelineLoopOnly.cfg", [], False)]
+        runs += [("no-containment", "PipelineAsIs.cfg", [], False), ("loop-only-containment", "PipelineLoopOnly.cfg", [], False)]
 
     def one(x):
         name, cfg, extra, expect_ok = x
@@ -254,22 +254,22 @@ def natural_plan(tier, seed, gens):
     sets = OPTSETS[tier]
     plan = []
     for i, o in enumerate(sets):
-        cmds = [{"cmd": "opt", "text": t} for t in H]
+        cmds = [{"text": t} for t in H]
         if tier == "quick":
             if i < 2:
-                cmds += [{"cmd": "opt", "text": t} for t in gens["rule"]]
+                cmds += [{"text": t} for t in gens["rule"]]
             for name in ("env", "stack", "split", "memsto"):
-                cmds += [{"cmd": "opt", "text": t} for t in corpus.sample(gens[name], 150, seed + i)]
-            cmds += [{"cmd": "opt", "text": t} for t in gens["sim"]]
-            cmds += [{"cmd": "opt", "items": b["items"], "src": b["src"]} for b in corpus.sample(real, 200, seed + i)]
+                cmds += [{"text": t} for t in corpus.sample(gens[name], 150, seed + i)]
+            cmds += [{"text": t} for t in gens["sim"]]
+            cmds += [{"items": b["items"], "src": b["src"]} for b in corpus.sample(real, 200, seed + i)]
         else:
             for name in gens:
-                cmds += [{"cmd": "opt", "text": t} for t in (gens[name] if i < 2 else corpus.sample(gens[name], 1500, seed + i))]
-            cmds += [{"cmd": "opt", "items": b["items"], "src": b["src"]} for b in (real if i == 0 else corpus.sample(real, 1500, seed + i))]
+                cmds += [{"text": t} for t in (gens[name] if i < 2 else corpus.sample(gens[name], 1500, seed + i))]
+            cmds += [{"items": b["items"], "src": b["src"]} for b in (real if i == 0 else corpus.sample(real, 1500, seed + i))]
         plan.append((o, cmds))
     if tier == "thorough":
         for i, o in enumerate(SMT_SETS):
-            cmds = [{"cmd": "opt", "text": t} for t in H] + [{"cmd": "opt", "text": t} for t in corpus.sample(gens["rule"], 200, seed + i)]
+            cmds = [{"text": t} for t in H] + [{"text": t} for t in corpus.sample(gens["rule"], 200, seed + i)]
             plan.append((o, cmds))
     return plan
 
@@ -282,26 +282,34 @@ def text_of(cmd):
     return cmd["text"] if "text" in cmd else pipedoc.block_text(cmd["items"])
 
 
+def natural_doc(cmd):
+    """one block = one document: the block goes through the REAL pipeline (optimize_asm_in_asm_format), whatever
+    containment it has, not through a re-enactment of it"""
+    if "items" in cmd:
+        return {"version": pipedoc.VERSION, "contracts": {"verif/C.sol:C": {"asm": {".code": cmd["items"], ".data": {}}}}}
+    return pipedoc.make_doc([[cmd["text"]]])
+
+
 def natural_runs(plan):
     """every block in its own killable command; the pool's kill limit is the budget of the largest block"""
     nmax = max(size_of(c) for _, cmds in plan for c in cmds)
     limit = 10 + 0.5 * nmax + 5
-    results = pool.run_matrix([(o, [dict(c) for c in cmds]) for o, cmds in plan], total_workers=JOBS, timeout=limit)
+    results = pool.run_matrix([(o, [{"cmd": "c10", "doc": natural_doc(c), "light": True} for c in cmds]) for o, cmds in plan],
+                              total_workers=JOBS, timeout=limit)
     cases, meta, rejected = [], [], 0
     for (o, cmds), rr in zip(plan, results):
-        prev_rss = 0
         for cmd, r in zip(cmds, rr):
             if "worker_exc" in r:            # the input itself was refused by the parser: not a well-formed input
                 rejected += 1
                 continue
-            stage, exc = "", ""
-            for b in r.get("blocks", []):
-                if "exc" in b and not stage:
-                    stage, exc = b["stage"], b["exc"]["type"] + ": " + b["exc"]["msg"]
+            stage, exc = r.get("stage", ""), r.get("raised", "")
+            if exc and not stage:
+                stage = "pipeline"
             cid = len(cases) + 1
             cases.append({"id": cid, "n": size_of(cmd), "wall_ms": int(1000 * r.get("wall", 0)), "rss_kb": int(r.get("maxrss_kb", 0)),
-                          "killed": bool(r.get("killed")), "stage": stage, "exc": exc[:200]})
-            meta.append({"text": text_of(cmd), "options": o, "src": cmd.get("src", "")})
+                          "killed": bool(r.get("killed")), "stage": stage, "exc": exc[:200], "file": bool(r.get("file", False))})
+            meta.append({"text": text_of(cmd), "options": o, "src": cmd.get("src", ""), "contained": r.get("contained", []),
+                         "file": r.get("file"), "changed": r.get("changed")})
     return cases, meta, rejected, limit
 
 
@@ -342,15 +350,14 @@ def shrink(example, clause, cls, rounds):
                 t = " ".join(toks[:start] + toks[start + size:])
                 if t and t not in cands:
                     cands.append(t)
-        rr = pool.run_commands(example["options"], [{"cmd": "opt", "text": t} for t in cands], nworkers=JOBS, timeout=10 + 0.5 * len(toks) + 5)
+        rr = pool.run_commands(example["options"], [{"cmd": "c10", "doc": natural_doc({"text": t}), "light": True} for t in cands],
+                               nworkers=JOBS, timeout=10 + 0.5 * len(toks) + 5)
         cases = []
         for i, (t, r) in enumerate(zip(cands, rr)):
-            stage, exc = "", ""
-            for b in r.get("blocks", []):
-                if "exc" in b and not stage:
-                    stage, exc = b["stage"], b["exc"]["type"] + ": " + b["exc"]["msg"]
+            bad = "worker_exc" in r
             cases.append({"id": i + 1, "n": len(gen.tokens(t)), "wall_ms": int(1000 * r.get("wall", 0)), "rss_kb": int(r.get("maxrss_kb", 0)),
-                          "killed": bool(r.get("killed")), "stage": stage if "worker_exc" not in r else "", "exc": exc[:200]})
+                          "killed": bool(r.get("killed")), "stage": "" if bad else (r.get("stage") or ("pipeline" if r.get("raised") else "")),
+                          "exc": "" if bad else r.get("raised", "")[:200], "file": True if bad else bool(r.get("file", False))})
         v, bst = judge_budget(cases)
         st[0] += bst["states"]
         st[1] += bst["transitions"]
@@ -488,6 +495,15 @@ def run(tier):
                 g["examples"].insert(0, dict(e, block=small, n=len(gen.tokens(small)), shrunk_from=e["block"]))
     natural_bodies = [(g["examples"][0]["block"], g["key"]) for g in groups.values()
                       if g["clause"].startswith("exception escapes") and g["examples"][0]["n"] <= 12][:4]
+    # blocks whose analysis fails but is contained: the shortest block of every exception class goes into a contract too
+    contained = {}
+    for cs, m in zip(bcases, bmeta):
+        if m["contained"] and not cs["stage"] and not cs["killed"] and not m["src"]:
+            cls = "contained: " + exc_class(m["contained"][0])
+            if cls not in contained or (cs["n"], len(m["text"])) < contained[cls][0]:
+                contained[cls] = ((cs["n"], len(m["text"])), m["text"])
+    natural_contained = {cls: v[1] for cls, v in contained.items()}
+    natural_bodies += [(t, cls) for cls, t in sorted(natural_contained.items()) if len(gen.tokens(t)) <= 12][:3]
 
     # contract runs
     docs = synth_docs(tier, seed, body_pool(gens))
@@ -540,7 +556,7 @@ def run(tier):
         samples.append({"kind": g["kind"], "key": g["key"], "count": g["count"],
                         "example": {k: e[k] for k in e if k not in ("doc", "trace")}})
     for name, ce in model["counterexamples"].items():
-        samples.append({"kind": "model counterexample (expected: design-level defect)", "variant": name, "fault": ce["fault"],
+        samples.append({"kind": "model counterexample (expected: the variant without full containment violates NoEscape)", "variant": name, "fault": ce["fault"],
                         "actions": ce["counterexample"], "escapes_from": ce["escapes_from"]})
     distinct_blocks = len({(m["text"], tuple(m["options"])) for m in bmeta})
     cov = {"states": model["states"] + bst["states"] + tst["states"] + fst[0] + gtlc[0] + shrunk[0],
@@ -556,6 +572,9 @@ def run(tier):
                                          for k, v in model["counterexamples"].items()},
            "natural_runs": len(bcases), "natural_distinct": distinct_blocks, "natural_rejected_inputs": rejected,
            "natural_failing": sum(g["count"] for g in groups.values() if g["kind"] == "block"),
+           "natural_blocks_with_contained_analysis_failure": sum(1 for m in bmeta if m["contained"]),
+           "natural_contained_failure_classes": natural_contained,
+           "natural_fault_contracts": sum(1 for m in tmeta if m["fault"]["stage"] == "natural"),
            "natural_max_wall_ms": max([c["wall_ms"] for c in bcases] or [0]), "natural_max_rss_kb": max([c["rss_kb"] for c in bcases] or [0]),
            "budget": "Budget(n) = 10 s + 0.5 s * n wall, 1 GB peak RSS (Pipeline!BudgetMs, BudgetRssKb); kill limit of the pool %.1f s" % limit,
            "corpus": gstats, "hand_list": len(hand_list()), "option_sets": [o for o, _ in plan],
@@ -603,14 +622,12 @@ def replay(path):
     ex = case["examples"][0]
     print("C10 replay: %s (%d case(s) in the recorded run)" % (case["key"], case["count"]))
     if case["kind"] == "block":
-        r = pool.run_commands(ex["options"], [{"cmd": "opt", "text": ex["block"]}], nworkers=1, timeout=10 + 0.5 * ex["n"] + 5)[0]
-        stage, exc = "", ""
-        for b in r.get("blocks", []):
-            if "exc" in b and not stage:
-                stage, exc = b["stage"], b["exc"]["type"] + ": " + b["exc"]["msg"]
-                print(b["exc"]["tb"])
+        r = pool.run_commands(ex["options"], [{"cmd": "c10", "doc": natural_doc({"text": ex["block"]}), "light": True}], nworkers=1,
+                              timeout=10 + 0.5 * ex["n"] + 5)[0]
+        print(r.get("tb", ""))
         cs = [{"id": 1, "n": ex["n"], "wall_ms": int(1000 * r.get("wall", 0)), "rss_kb": int(r.get("maxrss_kb", 0)),
-               "killed": bool(r.get("killed")), "stage": stage, "exc": exc[:200]}]
+               "killed": bool(r.get("killed")), "stage": r.get("stage") or ("pipeline" if r.get("raised") else ""),
+               "exc": r.get("raised", "")[:200], "file": bool(r.get("file", False))}]
         v, _ = judge_budget(cs)
         print("block: %s\noptions: %s\nrecorded: %r\nPipelineBudget verdict: %r" % (ex["block"], ex["options"], cs[0], v.get(1, "ok")))
         return 1 if 1 in v else 0
